@@ -18,3 +18,7 @@ def run(ctx):
     run_kernels(ctx, ["K13", "K16"], "C10")
     ctx.guard(builtin_method_lint, ctx, "C10.builtin-method", scope=("moclo.core._assembly",))
     r.floors["C10.builtin-method"] = 3
+    from ..rules_misc import fragment_cache_rule
+    ctx.guard(fragment_cache_rule, ctx, "C10.no-fragment-cache")
+    from ..rules_flow import k17_entry
+    ctx.guard(k17_entry, ctx, "C10")
